@@ -25,10 +25,12 @@ const (
 	Mem StoreKind = iota
 	LevelMem
 	LevelP
+	PDirect // the trie sits directly on the persistent store: every node write is a PNodeDB.PutNode / DeleteNode
+	LevelL  // layered over a layered store: saves go through LevelNodeDB.MultiPutNode
 )
 
 func (k StoreKind) String() string {
-	return [...]string{"mem", "level(mem,mem)", "level(mem,pnodedb)"}[k]
+	return [...]string{"mem", "level(mem,mem)", "level(mem,pnodedb)", "pnodedb", "level(mem,level(mem,mem))"}[k]
 }
 
 // Op is one letter of the alphabet.
@@ -100,8 +102,18 @@ func NewWorld(kind StoreKind, version int64) *World {
 			panic(err)
 		}
 		w.PN, w.Base = pn, pn
+	case PDirect:
+		w.DevPath = fmt.Sprintf("mptworld-%d", atomic.AddInt64(&devCounter, 1))
+		pn, err := util.NewPNodeDB(w.DevPath, "")
+		if err != nil {
+			panic(err)
+		}
+		w.PN, w.Base = pn, pn
+		w.T = util.NewMerklePatriciaTrie(pn, util.Sequence(version), nil, statecache.NewEmpty())
+	case LevelL:
+		w.Base = util.NewLevelNodeDB(util.NewMemoryNodeDB(), util.NewMemoryNodeDB(), false)
 	}
-	if kind != Mem {
+	if kind != Mem && kind != PDirect {
 		w.T = util.NewMerklePatriciaTrie(util.NewLevelNodeDB(util.NewMemoryNodeDB(), w.Base, false), util.Sequence(version), nil, statecache.NewEmpty())
 	}
 	return w
@@ -165,6 +177,11 @@ func (w *World) Apply(o Op) (fail string) {
 			return "rejected over-size insert changed the root"
 		}
 	case 'F':
+		if w.Kind == PDirect {
+			// everything is in the store already: a new trie object on it (cold node cache)
+			w.T = util.NewMerklePatriciaTrie(w.PN, util.Sequence(w.Ver), before, statecache.NewEmpty())
+			return ""
+		}
 		if err := w.T.SaveChanges(context.Background(), w.Base, false); err != nil {
 			return fmt.Sprintf("SaveChanges: %v", err)
 		}
@@ -297,6 +314,14 @@ func storeKeys(db util.NodeDB) []string {
 		m = d
 	case *util.LevelNodeDB:
 		m, _ = d.GetCurrent().(*util.MemoryNodeDB)
+	case *util.PNodeDB:
+		var ks []string
+		_ = d.Iterate(context.Background(), func(ctx context.Context, key util.Key, node util.Node) error {
+			ks = append(ks, hex.EncodeToString(key))
+			return nil
+		})
+		sort.Strings(ks)
+		return ks
 	}
 	if m == nil {
 		return nil
